@@ -73,7 +73,7 @@ func newBWorld(r *rng.R) *bWorld {
 	w.cavLists = [][]macaroon.Caveat{
 		{&rd},
 		{&flyio.Organization{ID: 1, Mask: resset.ActionRead}},
-		{&flyio.Organization{ID: 1, Mask: resset.ActionAll}}, // often a duplicate of an existing caveat
+		{&flyio.Organization{ID: 1, Mask: resset.ActionAll}},        // often a duplicate of an existing caveat
 		{&macaroon.ValidityWindow{NotBefore: 2, NotAfter: 1 << 41}}, // harmless
 	}
 	// scripted only (index 4): a restrictive caveat followed by a third-party caveat for tp1 -- Add refuses it on every token
@@ -353,14 +353,16 @@ func (w *bWorld) pool() (perms, dis, junk []string) {
 	p4, _ := macaroon.New([]byte("k1"), bLocs[0], w.keys["k1"])
 	p4.Add(&flyio.Organization{ID: 2, Mask: resset.ActionAll}) // clears only requests about organisation 2
 	p1a, _ := p1.Clone()
-	p1a.Add(&rd)                                         // attenuated variant of p1
-	pbad := mk("k1", macaroon.NewSigningKey(), bLocs[0]) // wrongly keyed
-	punk := mk("zz", w.keys["k1"], bLocs[0])             // unknown key-id
-	pforeign := mk("k1", w.keys["k1"], bLocs[3])         // foreign location: never a permission token
+	p1a.Add(&rd)                                                                                      // attenuated variant of p1
+	pbad := mk("k1", macaroon.NewSigningKey(), bLocs[0])                                              // wrongly keyed
+	punk := mk("zz", w.keys["k1"], bLocs[0])                                                          // unknown key-id
+	pempty := mk("zy", macaroon.SigningKey{}, bLocs[0])                                               // unknown key-id, signed under the empty key (what a missing map entry yields)
+	pkid, _ := macaroon.New(p1.TicketsForThirdParty(bLocs[1])[0], bLocs[0], macaroon.NewSigningKey()) // a PERMISSION-location token whose key-id is a ticket: never a discharge
+	pforeign := mk("k1", w.keys["k1"], bLocs[3])                                                      // foreign location: never a permission token
 	p5, _ := macaroon.New([]byte("k1"), bLocs[0], w.keys["k1"])
 	p5.Add(&flyio.Organization{ID: 1, Mask: resset.ActionAll}, &macaroon.ValidityWindow{NotBefore: 0, NotAfter: 1 << 41}, &macaroon.ValidityWindow{NotBefore: 1, NotAfter: 1 << 41})
 	w.p5 = str(p5)
-	perms = []string{str(p0), str(p1), str(p2), str(p1a), str(pbad), str(punk), str(p3), str(p4), str(p4)}
+	perms = []string{str(p0), str(p1), str(p2), str(p1a), str(pbad), str(punk), str(p3), str(p4), str(p4), str(pempty), str(pkid)}
 	d1 := discharge(p1, bLocs[1], w.tpKeys[bLocs[1]])
 	d2a := discharge(p2, bLocs[1], w.tpKeys[bLocs[1]], &rd)
 	d2b := discharge(p2, bLocs[2], w.tpKeys[bLocs[2]])
@@ -572,7 +574,24 @@ func genBundle(c *ctx, cached bool) {
 			}
 			first := w.nextID
 			before := b.Len()
-			err := b.Discharge(bLocs[tp], key, func(cv []macaroon.Caveat) ([]macaroon.Caveat, error) { return nil, nil })
+			// the third party's decision: approve with no caveats; refuse; or hand back caveats the discharge cannot take
+			// (two third-party caveats for one location) -- any failure means the whole Discharge fails and adds nothing
+			cb := func(cv []macaroon.Caveat) ([]macaroon.Caveat, error) { return nil, nil }
+			if len(b.UndischargedTicketsForThirdParty(bLocs[tp])) > 0 {
+				switch r.Intn(6) {
+				case 0:
+					cb = func([]macaroon.Caveat) ([]macaroon.Caveat, error) { return nil, fmt.Errorf("user said no") }
+					good = false
+				case 1:
+					cb = func([]macaroon.Caveat) ([]macaroon.Caveat, error) {
+						c1, _ := macaroon.NewCaveat3P(macaroon.NewEncryptionKey(), "https://nested.test")
+						c2, _ := macaroon.NewCaveat3P(macaroon.NewEncryptionKey(), "https://nested.test")
+						return []macaroon.Caveat{c1, c2}, nil
+					}
+					good = false
+				}
+			}
+			err := b.Discharge(bLocs[tp], key, cb)
 			idx := 0
 			bundle.ForEach(b, func(t bundle.Token) {
 				if idx >= before {
